@@ -68,6 +68,24 @@ type gstate struct {
 	refusing bool
 }
 
+// num renders an integer the ways FIX peers do and strconv.Atoi accepts: mostly plain, sometimes
+// with leading zeros, rarely with an explicit plus sign.
+func (g *gstate) num(v int) string {
+	s := strconv.Itoa(v)
+	if v < 0 {
+		return s
+	}
+	switch g.r.Intn(12) {
+	case 0:
+		return "0" + s
+	case 1:
+		return "00" + s
+	case 2:
+		return "+" + s
+	}
+	return s
+}
+
 func (g *gstate) seqField(kind int) (string, int) {
 	// kind 0: numeric next; 1: missing; 2: non numeric; 3: numeric jump
 	switch kind {
@@ -77,12 +95,12 @@ func (g *gstate) seqField(kind int) (string, int) {
 		return "34=x" + strconv.Itoa(g.r.Intn(9)), -1
 	case 3:
 		g.p.seq += g.r.Range(2, 5)
-		return "34=" + strconv.Itoa(g.p.seq), g.p.seq
+		return "34=" + g.num(g.p.seq), g.p.seq
 	case 4:
 		return "34=", -1
 	}
 	g.p.seq++
-	return "34=" + strconv.Itoa(g.p.seq), g.p.seq
+	return "34=" + g.num(g.p.seq), g.p.seq
 }
 
 func (g *gstate) logon(kind string) Op {
@@ -134,7 +152,7 @@ func (g *gstate) logon(kind string) Op {
 		skind = 3
 	}
 	sf, seq := g.seqField(skind)
-	body := "98=" + enc + "\x01108=" + strconv.Itoa(hb) + "\x01"
+	body := "98=" + enc + "\x01108=" + g.num(hb) + "\x01"
 	if g.r.Chance(1, 3) {
 		body += "141=" + []string{"Y", "N"}[g.r.Intn(2)] + "\x01"
 	}
@@ -295,7 +313,7 @@ func genScenario(r *rng.R) (*Scenario, []string) {
 			case 2:
 				b, e = r.Range(1, 4), r.Range(1, 40)
 			}
-			op := g.admin("2", "7="+strconv.Itoa(b)+"\x0116="+strconv.Itoa(e)+"\x01", "resend")
+			op := g.admin("2", "7="+g.num(b)+"\x0116="+g.num(e)+"\x01", "resend")
 			op.ID, op.Ev = b, e
 			sc.Ops = append(sc.Ops, op)
 		case c < 64:
@@ -336,6 +354,26 @@ func genScenario(r *rng.R) (*Scenario, []string) {
 		}
 	}
 	_ = loggedGuess
+	// the application registers a pass-through handler and removes it again (its own id), then goes
+	// on sending: what the session itself registered must still be in place. These scenarios are
+	// judged by the oracles only (the model has no removal operation).
+	if r.Chance(1, 8) {
+		id := g.nextID
+		g.nextID++
+		mt := []string{"ALL", "ALL", "0", "Y"}[r.Intn(4)]
+		kind, un := "REGOUT", "UNREGOUT"
+		if r.Chance(1, 3) {
+			kind, un = "REGIN", "UNREGIN"
+		}
+		at := r.Intn(len(sc.Ops) + 1)
+		ins := []Op{{Kind: kind, Mt: mt, ID: id, Flag: true}, {Kind: un, Mt: mt, ID: id}}
+		rest := append([]Op{}, sc.Ops[at:]...)
+		sc.Ops = append(append(sc.Ops[:at:at], ins...), rest...)
+		for k := r.Range(1, 4); k > 0; k-- {
+			sc.Ops = append(sc.Ops, Op{Kind: "SEND", App: "H", A: []byte{}})
+		}
+		tags = append(tags, "handler-removal")
+	}
 	if g.refusing {
 		tags = append(tags, "refusing-handler")
 	}
